@@ -839,7 +839,105 @@ def write_docs(path, d):
             json.dump(doc, f, default=json_util.default)
 
 
+# ----------------------------------------------------------------------------------------------------
+# continuity across subrun borders (strax.continuity_check on hand-built streams)
+# ----------------------------------------------------------------------------------------------------
+# A stream that is the ordered concatenation of the subruns' chunks - as superrun chunks (run_id = superrun, each
+# listing the pieces it is built from; with or without the inter-run time absorbed into the following chunk) or as
+# the subruns' own chunks (combining=True) - is continuous by definition: get_iter must let it through unchanged,
+# whatever the time between two subruns.  A hole or an overlap INSIDE a subrun must be rejected.
+@st.composite
+def st_cont(draw):
+    unit = draw(st.sampled_from([1, 400, 2000]))
+    n = draw(st.integers(1, 4))
+    pool = draw(st_pool(unit, n))
+    npieces = sum(len(r["cuts"]) + 1 for r in pool)
+    return dict(unit=unit, pool=pool, style=draw(st.sampled_from(["superrun", "superrun", "combining"])),
+                groups=draw(st.lists(st.integers(1, 3), min_size=npieces, max_size=npieces)),
+                absorb=draw(st.booleans()), defect=draw(st.sampled_from([None, None, "hole", "overlap"])),
+                k=draw(st.integers(0, 50)))
+
+
+def mkchunk(start, end, run_id, subruns):
+    x = np.zeros(0, dtype_of(0))
+    return strax.Chunk(start=int(start), end=int(end), data=x, data_type="lv1", data_kind="kk0", dtype=x.dtype,
+                       run_id=run_id, subruns=subruns)
+
+def run_cont(d):
+    u = d["unit"]
+    pieces = []  # (run, a, b)
+    for i, r in enumerate(d["pool"]):
+        edges = [r["start"]] + list(r["cuts"]) + [r["end"]]
+        pieces += [(f"{i:03d}", a * u, b * u) for a, b in zip(edges[:-1], edges[1:])]
+    specs = []  # (start, end, run_id, spans)
+    if d["style"] == "combining":
+        specs = [(a, b, r, None) for r, a, b in pieces]
+    else:
+        i = 0
+        for g in d["groups"]:
+            grp = pieces[i:i + g]
+            i += g
+            if not grp:
+                break
+            spans = {}
+            for r, a, b in grp:
+                spans[r] = (spans[r][0], b) if r in spans else (a, b)
+            start = grp[0][1]
+            if d["absorb"] and specs:
+                start = specs[-1][1]
+            specs.append((start, grp[-1][2], SUP, spans))
+    classes = [d["style"]]
+    expect_error = None
+    if d["defect"]:
+        cand = []
+        for n in range(len(specs) - 1):
+            a, b = specs[n], specs[n + 1]
+            if d["style"] == "combining":
+                same = a[2] == b[2]
+                room = b[1] - b[0] >= 2 * u
+            else:
+                same = list(a[3])[-1] == list(b[3])[0] and b[0] == b[3][list(b[3])[0]][0]
+                f = b[3][list(b[3])[0]]
+                room = f[1] - f[0] >= 2 * u
+            if same and room and a[1] - a[0] >= 2 * u:
+                cand.append(n + 1)
+        if cand:
+            n = cand[d["k"] % len(cand)]
+            s, e, rid, spans = specs[n]
+            delta = u if d["defect"] == "hole" else -u
+            if spans is not None:
+                first = list(spans)[0]
+                spans = dict(spans)
+                spans[first] = (spans[first][0] + delta, spans[first][1])
+            specs[n] = (s + delta, e, rid, spans)
+            expect_error = n
+            classes.append("defect:" + d["defect"])
+    chunks = [mkchunk(s, e, rid, None if sp is None else {r: dict(start=a, end=b) for r, (a, b) in sp.items()})
+              for s, e, rid, sp in specs]
+    got = []
+    try:
+        for c in strax.continuity_check(iter(chunks)):
+            got.append(c)
+    except ValueError as e:
+        if expect_error is None:
+            raise Violation("continuity.rejected_concatenation_of_subruns", f"{e} {specs} {d}")
+        if len(got) != expect_error:
+            raise Violation("continuity.rejected_at_wrong_chunk", f"{e} after {len(got)} chunks, defect at {expect_error} {specs} {d}")
+        return dict(nt=True, classes=classes + ["rejected"])
+    if expect_error is not None:
+        raise Violation("continuity.accepted_" + d["defect"] + "_inside_subrun", f"{specs} {d}")
+    if len(got) != len(chunks) or any(x is not y for x, y in zip(got, chunks)):
+        raise Violation("continuity.chunks_changed", repr(d))
+    holes = sum(1 for a, b in zip(specs[:-1], specs[1:]) if b[0] > a[1])
+    if holes:
+        classes.append("hole_at_subrun_border")
+    if any(sp and len(sp) > 1 for _, _, _, sp in specs):
+        classes.append("chunk_spans_border")
+    return dict(nt=len(d["pool"]) >= 2 and len(specs) > len(d["pool"]), classes=classes)
+
+
 SUBCHECKS = [
     SubCheck("single", run_case, strategy=lambda: st_case(threaded=False), quick=260, thorough=9000, min_per_shard=8),
     SubCheck("threaded", run_case, strategy=lambda: st_case(threaded=True), quick=100, thorough=3500, min_per_shard=5),
+    SubCheck("continuity", run_cont, strategy=st_cont, quick=1600, thorough=40000, min_per_shard=100),
 ]
